@@ -28,6 +28,9 @@ pub enum Op {
     /// page multiples (small and large-object space) and a long run of small over-aligned
     /// objects; every result is checked for overlap with what was handed out before
     AlignBurst { m: u8 },
+    /// with most of the heap held by a rooted large object: three large allocation requests with
+    /// `at_safepoint = false` (refused with null: they would need a collection), then drop the filler
+    RefusedAllocs { m: u8 },
     Drop { m: u8, slot: u8 },
     Gc { m: u8, full: bool },
     Pin { m: u8, slot: u8 },
@@ -49,6 +52,7 @@ impl Op {
             Op::EphChain { m, n } => json!({"op": "ephchain", "m": m, "n": n}),
             Op::Eph { m, key, value } => json!({"op": "eph", "m": m, "key": key, "value": value}),
             Op::AlignBurst { m } => json!({"op": "alignburst", "m": m}),
+            Op::RefusedAllocs { m } => json!({"op": "refusedallocs", "m": m}),
             Op::Drop { m, slot } => json!({"op": "drop", "m": m, "slot": slot}),
             Op::Gc { m, full } => json!({"op": "gc", "m": m, "full": full}),
             Op::Pin { m, slot } => json!({"op": "pin", "m": m, "slot": slot}),
@@ -67,6 +71,7 @@ impl Op {
             "ephchain" => Op::EphChain { m: u("m"), n: u("n") },
             "eph" => Op::Eph { m: u("m"), key: u("key"), value: u("value") },
             "alignburst" => Op::AlignBurst { m: u("m") },
+            "refusedallocs" => Op::RefusedAllocs { m: u("m") },
             "drop" => Op::Drop { m: u("m"), slot: u("slot") },
             "gc" => Op::Gc { m: u("m"), full: v["full"].as_bool().unwrap_or(true) },
             "pin" => Op::Pin { m: u("m"), slot: u("slot") },
@@ -97,6 +102,8 @@ pub struct Alphabet {
     pub bursts: Vec<(u32, u16, u8)>,
     /// offer `AlignBurst`
     pub align_bursts: bool,
+    /// offer `RefusedAllocs`
+    pub refused_allocs: bool,
     /// chain lengths offered for `EphChain` (empty = no weak-table ops)
     pub eph_chains: Vec<u8>,
     pub two_mutators: bool,
@@ -138,6 +145,9 @@ impl Abs {
         }
         if a.align_bursts {
             v.push(Op::AlignBurst { m: 0 });
+        }
+        if a.refused_allocs {
+            v.push(Op::RefusedAllocs { m: 0 });
         }
         for &m in ms {
             for src in 0..SLOTS as u8 {
@@ -213,7 +223,7 @@ impl Abs {
                 self.pinned[m as usize][s] = false;
                 self.dirty = true;
             }
-            Op::Write { .. } | Op::Eph { .. } | Op::AlignBurst { .. } => self.dirty = true,
+            Op::Write { .. } | Op::Eph { .. } | Op::AlignBurst { .. } | Op::RefusedAllocs { .. } => self.dirty = true,
             Op::Drop { m, slot } => {
                 self.occ[m as usize][slot as usize] = false;
                 self.pinned[m as usize][slot as usize] = false;
@@ -346,6 +356,7 @@ pub fn step(w: &mut World, op: &Op) -> Result<(), Fail> {
             }
             w.set_root(m, tmp, None);
         }
+        Op::RefusedAllocs { m } => w.refused_nonsafepoint_allocs(m as usize, 3)?,
         Op::AlignBurst { m } => {
             let m = m as usize;
             for &(align, offset) in &[(8usize, 0usize), (16, 8), (32, 8), (64, 8), (64, 56), (16, 0)] {
